@@ -6,7 +6,8 @@ usage: selftest.py <property id> [--update-meta]
 Every seeded regression under /verif/seeded/<id>-*/ and every line of /verif/selftest/mutants.tsv for <id> is applied
 to a scratch copy of /repo's *current working tree* (outside /repo and /verif, removed afterwards); the checker is run
 on the copy without executing honeytrap and must report a violation from a rule of this property (the expected rule
-when one is recorded).  A patch that no longer applies to the current tree, or a mutant that no longer type-checks, is
+when one is recorded).  The behaviour-preserving changes under /verif/benign/<id>/ are applied the same way and the check
+must stay silent on each.  A patch that no longer applies to the current tree, or a mutant that no longer type-checks, is
 skipped and reported as such.  The result is written into evidence/<id>.json under coverage.selftest; it never changes
 the check's exit status (the verdict on /repo is the checker's alone)."""
 import json, os, re, shutil, subprocess, sys, tempfile
@@ -39,6 +40,10 @@ def variants(pid):
         except Exception:
             pass
         out.append({"name": "seed " + d, "kind": "patch", "patch": patch, "expect": exp})
+    bd = os.path.join(VERIF, "benign", pid)
+    for f in sorted(os.listdir(bd)) if os.path.isdir(bd) else []:
+        if f.endswith(".diff"):
+            out.append({"name": "benign %s/%s" % (pid, f), "kind": "benign", "patch": os.path.join(bd, f), "expect": []})
     tsv = os.path.join(VERIF, "selftest", "mutants.tsv")
     if os.path.exists(tsv):
         for i, line in enumerate(open(tsv)):
@@ -59,7 +64,7 @@ def run_variant(pid, v):
         vdir = os.path.join(scratch, "verif")
         os.makedirs(vdir)
         shutil.copy(os.path.join(VERIF, "known_findings.json"), vdir)
-        if v["kind"] == "patch":
+        if v["kind"] in ("patch", "benign"):
             r = subprocess.run(["git", "apply", "--whitespace=nowarn", v["patch"]], cwd=repo, capture_output=True, text=True)
             if r.returncode != 0:
                 return dict(v, result="skipped", why="patch does not apply to the current tree")
@@ -76,6 +81,9 @@ def run_variant(pid, v):
         if "checker could not analyse the tree" in out:
             return dict(v, result="skipped", why="variant does not type-check: " + out.split("\n")[0][:200])
         fired = sorted(set(re.findall(r"^\s+(?:VIOLATED|UNDECIDED) rule=([A-Za-z0-9_-]+)", out, re.M)))
+        if v["kind"] == "benign":
+            # a behaviour-preserving change: the check must stay silent
+            return dict(v, result="silent" if (not fired and r.returncode == 0) else "FALSE-ALARM", fired=fired)
         ok = bool(fired) and r.returncode == 1 and (not v["expect"] or any(e in fired for e in v["expect"]))
         return dict(v, result="detected" if ok else "MISSED", fired=fired)
     finally:
@@ -86,18 +94,20 @@ def main():
     vs = variants(pid)
     with ThreadPoolExecutor(max_workers=int(os.environ.get("HT_SELFTEST_JOBS", "4"))) as ex:
         res = list(ex.map(lambda v: run_variant(pid, v), vs))
+    sil = sum(1 for r in res if r["result"] == "silent")
+    fal = [r for r in res if r["result"] == "FALSE-ALARM"]
     det = sum(1 for r in res if r["result"] == "detected")
     mis = [r for r in res if r["result"] == "MISSED"]
     skp = sum(1 for r in res if r["result"] == "skipped")
     for r in res:
         print("SELFTEST %-8s %s %s" % (r["result"], r["name"], ",".join(r.get("fired", [])) or r.get("why", "")))
-    print("SELFTEST property=%s variants=%d detected=%d missed=%d skipped=%d" % (pid, len(res), det, len(mis), skp))
+    print("SELFTEST property=%s variants=%d detected=%d missed=%d skipped=%d benign_silent=%d false_alarms=%d" % (pid, len(res), det, len(mis), skp, sil, len(fal)))
     ev = os.path.join(VERIF, "evidence", pid + ".json")
     if os.path.exists(ev):
         e = json.load(open(ev))
         e.setdefault("coverage", {})["selftest"] = {
             "what": "seeded regressions and mutants applied to scratch copies of the current working tree; the static checker must flag each (no code is executed)",
-            "variants": len(res), "detected": det, "missed": len(mis), "skipped": skp,
+            "variants": len(res), "detected": det, "missed": len(mis), "skipped": skp, "benign_silent": sil, "false_alarms": len(fal),
             "results": [{k: r.get(k) for k in ("name", "result", "fired", "expect", "why") if r.get(k) is not None} for r in res]}
         json.dump(e, open(ev, "w"), indent=1)
     if "--update-meta" in sys.argv:
